@@ -329,7 +329,7 @@ type result struct {
 }
 
 func Run(c *core.Ctx) {
-	c.Rule = "safehtml.SanitizeCSS on (property class x value): every value over the 21-symbol CSS-adversarial alphabet up to the tier's length per sanitiser class, url(...)/quoted-name shapes with an exhaustive inside, white-space-rune wrappers, every alphabet/extra symbol spliced at every position of accepted values, scheme variants inside url(), hand-written vectors x property-name variants, comma-separated lists of valid/invalid/bare items in every order up to three items, random; distinct non-trivial = distinct (sanitiser class, value) with a structural byte (one of ; { } ( ) quote backslash / * < ,) in the value; the same cases, sampled, through templ.SanitizeCSS[T] for five value types, a rendered <style> element, and runtime.SanitizeStyleAttributeValues in every value form"
+	c.Rule = "safehtml.SanitizeCSS on (property class x value): every value over the 21-symbol CSS-adversarial alphabet up to the tier's length per sanitiser class, url(...)/quoted-name shapes with an exhaustive inside, white-space-rune wrappers, every alphabet/extra symbol spliced at every position of accepted values, scheme variants inside url(), hand-written vectors x property-name variants, comma-separated lists of valid/invalid/bare items in every order up to three items, random; distinct non-trivial = distinct (sanitiser class, value) with a structural byte (one of ; { } ( ) quote backslash / * < ,) in the value; the same cases, sampled, through templ.SanitizeCSS[T] for five value types, a rendered <style> element, runtime.SanitizeStyleAttributeValues in every value form, and sequences of style-attribute renders in which one is abandoned by a recovered panic (sequential on one P and concurrent)"
 	c.Trusted = append(c.Trusted,
 		"specification spec/CssScan.v (CSS Syntax 3 scanner: confined, urls_of, decl_list) and spec/Whatwg.v (browser scheme extraction)",
 		"extraction: ExtrOcamlBasic only; ocaml/driver.ml (hex line protocol)",
@@ -350,6 +350,7 @@ func Run(c *core.Ctx) {
 	runTemplCSS(c, res)
 	escapedAgain := runGenerator(c)
 	runStyleAttr(c, res, escapedAgain)
+	runStyleSeq(c, res)
 	if !c.Quick() {
 		nodeURLs(c, res)
 	}
